@@ -275,6 +275,7 @@ type obsJSON struct {
 	Err    string      `json:"err,omitempty"`
 	OK     bool        `json:"ok"`
 	Reopened bool      `json:"reopened,omitempty"`
+	InTLS    bool      `json:"sent_inside_mitm_session,omitempty"` // the request was written inside a MITM'd TLS session
 	Pac    []pacCall   `json:"pac_calls,omitempty"`
 	Match  []string    `json:"matcher_args,omitempty"`
 }
@@ -363,6 +364,7 @@ func (s *session) exchange(kind int, scheme, urlhost string) obsJSON {
 		var err error
 		switch kind {
 		case 0, 2, 4: // absolute-form GET (http or https target); 4: origin-form GET naming the target in Host only
+			o.InTLS = s.inMITM
 			if kind == 4 {
 				fmt.Fprintf(s.rw, "GET /p HTTP/1.1\r\nHost: %s\r\n%s\r\n", urlhost, connHdr)
 			} else {
